@@ -27,7 +27,8 @@ ASSUMPTIONS = [
 ]
 REQUIRED_MONITORS = ["completes", "name_is_current_model", "keys_exist", "value_carried", "scale_background_defaulted"]
 REQUIRED_BUCKETS = {"quick": ["table:(3, 1, 2)", "table:(5, 0, 4)", "set:all", "set:subset", "attrs:yes",
-                              "magnetic:yes", "underscore:yes", "underscore:no", "hand:yes", "hand:no"]}
+                              "magnetic:yes", "underscore:yes", "underscore:no", "hand:yes", "hand:no",
+                              "saved-zero-scale-or-background"]}
 REQUIRED_BUCKETS["thorough"] = REQUIRED_BUCKETS["quick"]
 
 ATTRS = [".width", ".npts", ".nsigmas", ".type", ".lower", ".upper"]
@@ -152,10 +153,11 @@ def run_case(case, rec):
                     if rng.random() < 0.5:
                         pars[o + a] = ("gaussian" if a == ".type" else
                                        int(10 + counter[0]) if a == ".npts" else fresh())
-        if rng.random() < 0.3:
-            pars["scale"] = fresh()
-        if rng.random() < 0.3:
-            pars["background"] = fresh()
+        # scale and background, when saved, sometimes exactly zero (a legitimate saved value, not "missing")
+        if rng.random() < 0.4:
+            pars["scale"] = fresh() if rng.random() < 0.5 else 0.0
+        if rng.random() < 0.4:
+            pars["background"] = fresh() if rng.random() < 0.5 else 0.0
         original = copy.deepcopy(pars)
         rec.bucket("set:" + kind, "attrs:yes" if with_attrs else "attrs:no",
                    "magnetic:yes" if use_mag else "magnetic:no",
@@ -241,6 +243,13 @@ def run_case(case, rec):
                           key=_key_carry(target, ok_, nk, n, kctx))
         rec.check("scale_background_defaulted", "scale" in newpars and "background" in newpars,
                   dict(ctx, returned=sorted(newpars)[:40]))
+        if not is_hand and not info.structure_factor:
+            for nm in ("scale", "background"):
+                if nm in original and nm in newpars and nm not in old2new:
+                    okc = newpars[nm] == original[nm]
+                    rec.check("value_carried", okc, dict(ctx, old_key=nm, new_key=nm, value=original[nm], got=newpars[nm]))
+                    if original[nm] == 0.0:
+                        rec.bucket("saved-zero-scale-or-background")
 
 
 def _key_exception(target, where, pars):
